@@ -211,6 +211,49 @@ theorem allAssignable_of_types : ∀ {f : List Val} {ps : List Ty},
       simp only [TypesMatch] at h
       simp [allAssignable, valAssignable, h.1, assignable, ih h.2]
 
+theorem typesMatch_length : ∀ {f : List Val} {ps : List Ty}, TypesMatch f ps → f.length = ps.length := by
+  intro f
+  induction f with
+  | nil => intro ps h; cases ps <;> simp_all [TypesMatch]
+  | cons v vs ih =>
+    intro ps h
+    cases ps with
+    | nil => simp [TypesMatch] at h
+    | cons p ps => simp only [TypesMatch] at h; simp [ih h.2]
+
+/-- the loop over a fitting prefix followed by anything -/
+theorem buildArgs_append_of_fits : ∀ {ps : List Ty} {as : List Val}, AllFit ps as →
+    ∃ f, TypesMatch f ps ∧ ∀ qs bs, buildArgs chk oob (ps ++ qs) (as ++ bs) =
+      (match buildArgs chk oob qs bs with
+       | .ok g => .ok (f ++ g)
+       | r => r) := by
+  intro ps
+  induction ps with
+  | nil =>
+    intro as h
+    cases as with
+    | nil =>
+      refine ⟨[], trivial, ?_⟩
+      intro qs bs
+      cases hq : buildArgs chk oob qs bs <;> simp [hq]
+    | cons _ _ => simp [AllFit] at h
+  | cons p ps ih =>
+    intro as h
+    cases as with
+    | nil => simp [AllFit] at h
+    | cons a as =>
+      simp only [AllFit] at h
+      obtain ⟨v, hv, hty⟩ := checkArg_of_fits (oob := oob) h.1
+      obtain ⟨f, hall, hf⟩ := ih h.2
+      refine ⟨v :: f, ⟨hty, hall⟩, ?_⟩
+      intro qs bs
+      simp only [List.cons_append, buildArgs, hv, hf qs bs]
+      cases hq : buildArgs chk oob qs bs <;> simp
+
+/-- a `[]interface{}` parameter lets every value through unchanged -/
+theorem checkArg_list (a : Val) : checkArg oob .list a = .accept a := by
+  cases a <;> simp [checkArg, convertNumber, Val.ty, Ty.isInterface, Ty.list]
+
 /-! ### reflect.Call -/
 
 theorem allAssignable_length : ∀ {vs : List Val} {ts : List Ty},
